@@ -106,7 +106,7 @@ class C06(Prop):
         for i in range(n):
             r = rng.random()
             rule = rules[i % len(rules)]
-            if rng.random() < 0.06:
+            if rng.random() < (0.25 if rule == "copeland" else 0.06):
                 c = self._scale_case(rng, rule)
             elif rng.random() < 0.04:
                 # complete indifference: every ballot is one class holding all the alternatives (all scores equal,
@@ -138,7 +138,7 @@ class C06(Prop):
     def _scale_case(rng, rule):
         """structured large inputs: many tied winners, wide profiles with drawn pairwise contests, satisfaction scores
         that differ by less than any float tolerance"""
-        kind = rng.choice(["tied", "wide", "harmonic"])
+        kind = rng.choice(["tied", "wide", "harmonic"]) if rule != "copeland" else rng.choice(["wide", "wide", "tied"])
         if rule == "sav" or kind == "harmonic":
             # a: 1/s + 1/(s+2)   b: 2/(s+1)   (b smaller by 2 / (s (s+1) (s+2)))
             s0 = rng.choice([20, 60, 150, 400])
@@ -166,6 +166,15 @@ class C06(Prop):
             m = rng.choice([31, 36, 40])
             pad = gen.perm(rng, list(range(k + 1, m + 1)))
             prof, seen = [], set()
+            if k >= 4 and rng.random() < 0.5:
+                # two alternatives win the same number of contests, one of them also draws one, the other loses one
+                # (x y z w twice, y z x w once, z x y w once; relabelled and scaled)
+                x, y, z, w = gen.perm(rng, core)[:4]
+                rest = [a for a in core if a not in (x, y, z, w)]
+                cmul = rng.choice([1, 1, 2, 3])
+                for o, mlt in (((x, y, z, w), 2), ((y, z, x, w), 1), ((z, x, y, w), 1)):
+                    prof.append([[[a] for a in list(o) + rest + pad], mlt * cmul])
+                return {"type": "soc", "alts": list(range(1, m + 1)), "profile": prof}
             for _ in range(rng.randint(2, 4)):
                 o = tuple(gen.perm(rng, core))
                 if o in seen:
